@@ -2,6 +2,9 @@ use crate::engine::Property;
 
 pub mod c01;
 pub mod c02;
+pub mod c03;
+pub mod c04;
+pub mod c05;
 pub mod c06;
 pub mod c08;
 pub mod c09;
@@ -13,6 +16,9 @@ pub fn all() -> Vec<Property> {
     vec![
         c01::property(),
         c02::property(),
+        c03::property(),
+        c04::property(),
+        c05::property(),
         c06::property(),
         c08::property(),
         c09::property(),
